@@ -396,6 +396,9 @@ func (ex *Exec) unknownCall(ctx *callCtx) []cont {
 		ex.eng.unknownCalls[short(ctx.key)]++
 	}
 	st := ctx.st
+	if ctx.sig != nil && ctx.key != "" {
+		ex.nativeAtCalls(ctx, ctx.key) // the caller's call-site assertions hold for calls without a stub too
+	}
 	for _, a := range ctx.args {
 		ex.havocReachable(st, a)
 	}
